@@ -694,6 +694,9 @@ func (tdsChan *Channel) tryParsePackage() bool {
 			if lastPkg, ok := tdsChan.lastPkgRx.(*DonePackage); !ok || lastPkg.Status != TDS_DONE_FINAL {
 				tdsChan.packageCh <- &DonePackage{Status: TDS_DONE_FINAL}
 			}
+			// The response is complete - the next response must not
+			// be judged by the last package of this one.
+			tdsChan.lastPkgRx = nil
 		}
 		return false
 	}
